@@ -123,6 +123,18 @@ theorem allowOf_tokIncAllow {w w' : World} {t owner sp amt : Nat}
   obtain ⟨T, hT, _, rfl⟩ := tokIncAllow_ok h
   exact allowOf_setTok _ hT u o s (fun _ => by simp [ho])
 
+theorem allowOf_tokBurnFrom {w w' : World} {t sp owner amt : Nat}
+    (h : tokBurnFrom w t sp owner amt = .ok w') (u o s : Nat) (ho : o ≠ owner) :
+    allowOf w' u o s = allowOf w u o s := by
+  obtain ⟨T, al, hT, _, _, _, _, rfl⟩ := tokBurnFrom_ok h
+  exact allowOf_setTok _ hT u o s (fun _ => by simp [ho])
+
+theorem allowOf_tokDecAllow {w w' : World} {t owner sp amt : Nat}
+    (h : tokDecAllow w t owner sp amt = .ok w') (u o s : Nat) (ho : o ≠ owner) :
+    allowOf w' u o s = allowOf w u o s := by
+  obtain ⟨T, al, hT, _, _, rfl⟩ := tokDecAllow_ok h
+  exact allowOf_setTok _ hT u o s (fun _ => by simp [ho])
+
 theorem allowOf_of_tok_eq {w w' : World} (h : w'.tok = w.tok) (t o s : Nat) :
     allowOf w' t o s = allowOf w t o s := by simp [allowOf, h]
 
@@ -150,6 +162,10 @@ inductive Moves (F : Prop) (S Q : Nat → Prop) : World → World → Prop
       S sd → Q t → tokBurn w t sd amt = .ok w' → Moves F S Q w w'
   | incAllow {w w' : World} {t o sp amt : Nat} :
       S o → tokIncAllow w t o sp amt = .ok w' → Moves F S Q w w'
+  | burnFrom {w w' : World} {t sp owner amt : Nat} :
+      S owner → Q t → tokBurnFrom w t sp owner amt = .ok w' → Moves F S Q w w'
+  | decAllow {w w' : World} {t o sp amt : Nat} :
+      S o → tokDecAllow w t o sp amt = .ok w' → Moves F S Q w w'
   | quiet {w w' : World} :
       w'.bank = w.bank →
       (F → (∀ a z, bal w' a z = bal w a z) ∧ (∀ t, supply w' t = supply w t) ∧
@@ -190,6 +206,11 @@ theorem frame (h : Moves F S Q w w') (hF : F) : ∀ a z, ¬ S z → bal w' a z =
     have h2 : z ≠ sd := fun e => hz (e ▸ hs)
     rw [bal_tokBurn h, if_neg (fun e => h2 e.2)]
   | incAllow _ h => intro a z _; exact bal_tokIncAllow h a z
+  | @burnFrom w w' t sp owner amt hs _ h =>
+    intro a z hz
+    have h2 : z ≠ owner := fun e => hz (e ▸ hs)
+    rw [bal_tokBurnFrom h, if_neg (fun e => h2 e.2)]
+  | decAllow _ h => intro a z _; exact bal_tokDecAllow h a z
   | quiet _ hq => intro a z _; exact (hq hF).1 a z
 
 theorem supply_frame (h : Moves F S Q w w') (hF : F) : ∀ t, ¬ Q t → supply w' t = supply w t := by
@@ -208,6 +229,11 @@ theorem supply_frame (h : Moves F S Q w w') (hF : F) : ∀ t, ¬ Q t → supply 
     have hut : u ≠ t := fun e => hu (e ▸ hq)
     rw [supply_tokBurn h, if_neg hut]
   | incAllow _ h => intro t _; exact supply_tokIncAllow h t
+  | @burnFrom w w' t sp owner amt _ hq h =>
+    intro u hu
+    have hut : u ≠ t := fun e => hu (e ▸ hq)
+    rw [supply_tokBurnFrom h, if_neg hut]
+  | decAllow _ h => intro t _; exact supply_tokDecAllow h t
   | quiet _ hq => intro t _; exact (hq hF).2.1 t
 
 theorem allow_frame (h : Moves F S Q w w') (hF : F) :
@@ -221,6 +247,8 @@ theorem allow_frame (h : Moves F S Q w w') (hF : F) :
   | mint _ _ h => intro t o s _; exact allowOf_tokMint h t o s
   | burn _ _ h => intro t o s _; exact allowOf_tokBurn h t o s
   | incAllow hs h => intro t o s ho; exact allowOf_tokIncAllow h t o s (fun e => ho (e ▸ hs))
+  | burnFrom hs _ h => intro t o s ho; exact allowOf_tokBurnFrom h t o s (fun e => ho (e ▸ hs))
+  | decAllow hs h => intro t o s ho; exact allowOf_tokDecAllow h t o s (fun e => ho (e ▸ hs))
   | quiet _ hq => intro t o s _; exact (hq hF).2.2 t o s
 
 /-- conservation at one asset over one list -/
@@ -313,6 +341,29 @@ theorem cons (h : Moves F S Q w w') {a : Asset} (hF : ∀ t, a = .token t → F)
   | incAllow _ h =>
     intro L _ _
     exact consAt_same (bal_tokIncAllow h a) (supT_eq (supply_tokIncAllow h))
+  | @burnFrom w w' t sp owner amt hs _ h =>
+    intro L hn hL
+    by_cases ha : a = .token t
+    · subst ha
+      obtain ⟨T, al, hT, _, _, hle, hls, _⟩ := tokBurnFrom_ok h
+      have hle' : amt ≤ bal w (.token t) owner := by simp [bal, hT, hle]
+      have hls' : amt ≤ supply w t := by simp [supply, hT, hls]
+      have := sum_sub_at (k := amt) (x := owner) (f := bal w (.token t)) (g := bal w' (.token t))
+        (fun z => by rw [bal_tokBurnFrom h]; simp only [true_and]) hle' hn (hL _ hs)
+      show sumBal w' (.token t) L + supply w t = sumBal w (.token t) L + supply w' t
+      unfold sumBal
+      rw [supply_tokBurnFrom h, if_pos rfl]
+      omega
+    · refine consAt_same (fun z => by rw [bal_tokBurnFrom h, if_neg (fun e => ha e.1)]) ?_
+      cases a with
+      | native d => rfl
+      | token u =>
+        show supply _ u = supply _ u
+        have hut : u ≠ t := fun e => ha (e ▸ rfl)
+        rw [supply_tokBurnFrom h, if_neg hut]
+  | decAllow _ h =>
+    intro L _ _
+    exact consAt_same (bal_tokDecAllow h a) (supT_eq (supply_tokDecAllow h))
   | quiet hb hq =>
     intro L _ _
     cases a with
@@ -332,6 +383,8 @@ theorem mono {F' : Prop} {S' Q' : Nat → Prop} (h : Moves F S Q w w') (hF : F' 
   | mint hd hq h => exact .mint (hS _ hd) (hQ _ hq) h
   | burn hs hq h => exact .burn (hS _ hs) (hQ _ hq) h
   | incAllow hs h => exact .incAllow (hS _ hs) h
+  | burnFrom hs hq h => exact .burnFrom (hS _ hs) (hQ _ hq) h
+  | decAllow hs h => exact .decAllow (hS _ hs) h
   | quiet hb hq => exact .quiet hb (fun hF' => hq (hF hF'))
 
 end Moves
@@ -686,6 +739,22 @@ theorem tokSend_moves {name : Asset → String} {w w' : World} {t s d amt : Nat}
       exact ⟨s1.router ▸ hr, fun z hz => hp z (s1.pair ▸ hz)⟩
     · cases h
 
+theorem tokSendFrom_moves {name : Asset → String} {w w' : World} {t sp o d amt : Nat} {hk : Hook} {out : Out}
+    (h : tokSendFrom name w t sp o d amt hk = .ok (w', out)) (hs : S sp) (ho : S o) (hd : S d)
+    (hrc : ∀ z ∈ hk.receivers, S z)
+    (hroute : hk.isRoute = true → S w.router ∧ ∀ z, (w.pair z).isSome → S z)
+    (hlp : ∀ P, w.pair d = some P → Q P.lp) :
+    Moves F S Q w w' := by
+  obtain ⟨w1, h1, ⟨_, h2⟩ | ⟨_, _, _, h2⟩⟩ := tokSendFrom_ok h
+  · have s1 := (tokTransferFrom_same h1).1
+    exact (Moves.xferFrom ho hd h1).trans
+      (pairReceive_moves h2 hd hs hrc (fun P hP => hlp P (s1.pair ▸ hP))).1
+  · have s1 := (tokTransferFrom_same h1).1
+    refine (Moves.xferFrom ho hd h1).trans (routerReceive_moves h2 hs hrc ?_)
+    intro hi
+    obtain ⟨hr, hp⟩ := hroute hi
+    exact ⟨s1.router ▸ hr, fun z hz => hp z (s1.pair ▸ hz)⟩
+
 /-! ### factory -/
 
 theorem newTok_moves {w w' : World} {nl : Nat} {T : Token} (hb : w'.bank = w.bank)
@@ -834,7 +903,8 @@ theorem isLp_of_pair {w : World} {p : Nat} {P : PairSt} (h : w.pair p = some P) 
 
 theorem exec_moves {name : Asset → String} {w w' : World} {op : Op} {out : Out}
     (h : exec name w op = .ok (w', out)) :
-    Moves (FreshOK w op) (Touched w op) (fun t => IsLp w t ∨ ∃ s amt, op = .tokBurn t s amt) w w' := by
+    Moves (FreshOK w op) (Touched w op)
+      (fun t => IsLp w t ∨ (∃ s amt, op = .tokBurn t s amt) ∨ ∃ sp o amt, op = .tokBurnFrom t sp o amt) w w' := by
   cases op with
   | bankSend s d cs =>
     simp only [exec, bind_ok_iff, pure_ok_iff, Prod.mk.injEq] at h
@@ -855,7 +925,7 @@ theorem exec_moves {name : Asset → String} {w w' : World} {op : Op} {out : Out
   | tokBurn t s a =>
     simp only [exec, bind_ok_iff, pure_ok_iff, Prod.mk.injEq] at h
     obtain ⟨w1, h1, rfl, _⟩ := h
-    exact .burn (S := Touched w (.tokBurn t s a)) rfl (.inr ⟨s, a, rfl⟩) h1
+    exact .burn (S := Touched w (.tokBurn t s a)) rfl (.inr (.inl ⟨s, a, rfl⟩)) h1
   | pair s p f m =>
     refine pairExec_moves (S := Touched w (.pair s p f m)) h (.inl rfl) (.inr (.inl rfl))
       (fun P hP => ⟨.inr (.inr (.inl ⟨P, hP, rfl⟩)), .inl (isLp_of_pair hP)⟩) ?_
@@ -882,6 +952,23 @@ theorem exec_moves {name : Asset → String} {w w' : World} {op : Op} {out : Out
     refine facExec_moves (S := Touched w (.factory s f m)) h1 (.inl rfl) (.inr rfl) ?_
     intro hF a0 a1 req c ld np nl hm
     exact (hF s f a0 a1 req c ld np nl (by rw [hm])).2.1
+  | tokTransferFrom t sp o d a =>
+    simp only [exec, bind_ok_iff, pure_ok_iff, Prod.mk.injEq] at h
+    obtain ⟨w1, h1, rfl, _⟩ := h
+    exact .xferFrom (S := Touched w (.tokTransferFrom t sp o d a)) (.inr (.inl rfl)) (.inr (.inr rfl)) h1
+  | tokSendFrom t sp o d a hk =>
+    refine tokSendFrom_moves (S := Touched w (.tokSendFrom t sp o d a hk)) h (.inl rfl) (.inr (.inl rfl))
+      (.inr (.inr (.inl rfl)))
+      (fun z hz => .inr (.inr (.inr (.inl hz)))) (fun hi => ⟨.inr (.inr (.inr (.inr (.inl ⟨hi, .inr rfl⟩)))),
+        fun z hz => .inr (.inr (.inr (.inr (.inl ⟨hi, .inl hz⟩))))⟩) (fun P hP => .inl (isLp_of_pair hP))
+  | tokBurnFrom t sp o a =>
+    simp only [exec, bind_ok_iff, pure_ok_iff, Prod.mk.injEq] at h
+    obtain ⟨w1, h1, rfl, _⟩ := h
+    exact .burnFrom (S := Touched w (.tokBurnFrom t sp o a)) (.inr rfl) (.inr (.inr ⟨sp, o, a, rfl⟩)) h1
+  | tokDecAllow t o sp a =>
+    simp only [exec, bind_ok_iff, pure_ok_iff, Prod.mk.injEq] at h
+    obtain ⟨w1, h1, rfl, _⟩ := h
+    exact .decAllow (S := Touched w (.tokDecAllow t o sp a)) rfl h1
 
 /-! ### the C07 statements -/
 
@@ -909,8 +996,8 @@ theorem conserve_token {name : Asset → String} {w w' : World} {op : Op} {out :
 
 theorem supply_non_lp {name : Asset → String} {w w' : World} {op : Op} {out : Out}
     (h : exec name w op = .ok (w', out)) (hf : FreshOK w op) (t : Nat) (hlp : ¬ IsLp w t) :
-    supply w' t = supply w t ∨ ∃ s amt, op = .tokBurn t s amt := by
-  by_cases hb : ∃ s amt, op = .tokBurn t s amt
+    supply w' t = supply w t ∨ (∃ s amt, op = .tokBurn t s amt) ∨ ∃ sp o amt, op = .tokBurnFrom t sp o amt := by
+  by_cases hb : (∃ s amt, op = .tokBurn t s amt) ∨ ∃ sp o amt, op = .tokBurnFrom t sp o amt
   · exact .inr hb
   · exact .inl ((exec_moves h).supply_frame hf t (fun hq => hq.elim hlp hb))
 
